@@ -85,6 +85,12 @@ def render_fun(fn):
     if fn.get("uses_ext"):
         parts.append("extmod.extf()")
     parts += ["r%d" % i for i in range(len(fn["items"]))]
+    if fn.get("shadow"):
+        # a local name that hides a module variable of the same name (which this function therefore cannot observe)
+        sv, sk = fn["shadow"]
+        lines.append({"listcomp": "    sh = [%s for %s in ('p', 'q')]", "genexp": "    sh = list(%s for %s in ('p', 'q'))",
+                      "dictcomp": "    sh = {%s: 1 for %s in ('p', 'q')}", "lambda": "    sh = (lambda %s: %s)('p')",
+                      "setcomp": "    sh = {%s for %s in ('p', 'q')}"}[sk] % ((sv, sv)))
     if fn.get("ws") is not None:
         # a statement whose meaning depends on its indentation only (an edit of leading whitespace changes the value)
         lines += ["    w = 'a'", "    if False:", "        pass", ("        w = 'b'" if fn["ws"] else "    w = 'b'")]
@@ -179,6 +185,7 @@ VAR_VALUES = [jv("int", "0"), jv("int", "5"), jv("str", "a"), jv("str", ""), jv(
               jv("tuple", [jv("list", [jv("int", "3")]), jv("str", "z")])]
 # NB: both pools are injective for dds_hash (no two members in one C05 collision class: no True next to 1,
 # no [] next to ''), so that a C05 identification never shows up as a C01 staleness.
+SHADOW_KINDS = ["listcomp", "genexp", "dictcomp", "setcomp"]
 CONSTS = [jv("int", "1"), jv("int", "2"), jv("str", "s"), jv("none"), jv("bool", False), jv("str", "")]
 
 
@@ -215,7 +222,7 @@ def gen_call_args(rng, callee_params, n_prev_items, own_params, allow_runtime=Tr
     return args, kwargs, runtime
 
 
-def gen_world(rng, nfun=None, allow=("call", "ref", "keep", "datafn"), max_tries=200, multi=False):
+def gen_world(rng, nfun=None, allow=("call", "ref", "keep", "datafn", "shadow"), max_tries=200, multi=False):
     """a random well-formed world (DESIGN §4 predicates hold by construction / by rejection).
     multi=True: functions may be invoked from several sites with different arguments (a path may then be
     kept twice in one evaluation: dds must either reject the evaluation or get every value right)"""
@@ -285,6 +292,9 @@ def _gen_world(rng, nfun, allow):
         funs.append({"name": "f%d" % i, "params": params, "store_path": ("/df%d" % i) if datafn[i] else None,
                      "tag": "f%d#0" % i, "reads": reads, "items": items, "fails": None, "uses_ext": rng.random() < 0.2,
                      "ws": rng.choice([None, None, True, False])})
+        unread = [v for (v, _) in vars_ if v not in reads]
+        if unread and "shadow" in allow and rng.random() < 0.4:
+            funs[-1]["shadow"] = [rng.choice(unread), rng.choice(SHADOW_KINDS)]
     w = {"vars": vars_, "funs": funs, "ext_version": 0, "extra": []}
     return prune(w)
 
